@@ -228,3 +228,23 @@ package linkedlist
 //@     invariant forall i :: 0 <= i && i < llb.bytes ==> lview[llb][i] == old(lview[llb])[n + (b != nil ? len(b.buf) : 0) + i]
 //@     invariant forall i :: 0 <= i && i < n ==> wdata[ref(w)][old(wpos[ref(w)]) + i] == old(lview[llb])[i]
 //@     invariant forall x *node :: (nown[x] == llb ==> old(nown[x]) == llb) && (old(nown[x]) != llb ==> nown[x] == old(nown[x]))
+//
+// Peek: the result is made of prefixes of the buffers of consecutive nodes, covering exactly T bytes,
+// where T is maxBytes (0 < maxBytes <= Buffered) or everything (maxBytes <= 0 or MaxInt32); nothing is consumed.
+//@ pred segs(llb *Buffer, res [][]byte, T int) := len(res) <= llb.size &&
+//@     (forall j :: 0 <= j && j < len(res) ==> arr(res[j]) == arr(nd(llb, j).buf) && off(res[j]) == off(nd(llb, j).buf) &&
+//@          len(res[j]) == min(len(nd(llb, j).buf), T - lpoff[llb][j]) && lpoff[llb][j] < T) &&
+//@     (len(res) == llb.size || lpoff[llb][len(res)] >= T)
+//
+//@ func (llb *Buffer) Peek(maxBytes int) (res [][]byte, err error)
+//@   requires wf(llb) && llb.bytes <= 2147483647
+//@   arith unchecked the byte counters stay far below 2^63
+//@   ensures maxBytes > 0 && maxBytes != 2147483647 && maxBytes > llb.bytes ==> len(res) == 0 && err == io.ErrShortBuffer
+//@   ensures !(maxBytes > 0 && maxBytes != 2147483647 && maxBytes > llb.bytes) ==> err == nil &&
+//@        segs(llb, res, (maxBytes <= 0 || maxBytes == 2147483647) ? llb.bytes : maxBytes)
+//@   loop 1:
+//@     invariant llb == llb$0 && maxBytes == ((maxBytes$0 <= 0 || maxBytes$0 == 2147483647) ? 2147483647 : maxBytes$0)
+//@     invariant (maxBytes$0 > 0 && maxBytes$0 != 2147483647) ==> maxBytes$0 <= llb.bytes
+//@     invariant (cap(bs) == 0 || fresh(bs)) && 0 <= len(bs) && len(bs) <= llb.size && iter == (len(bs) < llb.size ? nd(llb, len(bs)) : nil)
+//@     invariant cum == lpoff[llb][len(bs)] && cum < maxBytes
+//@     invariant forall j :: 0 <= j && j < len(bs) ==> arr(bs[j]) == arr(nd(llb, j).buf) && off(bs[j]) == off(nd(llb, j).buf) && len(bs[j]) == len(nd(llb, j).buf)
